@@ -160,9 +160,6 @@ def matchLookaheadI (c : Ctx) (n : Nat) (matchFn : Nat → Nat → Bool) (startI
 
 /-! ### erasure: forgetting the reads gives the plain matchers -/
 
-theorem map_ok {α β} (f : α → β) (x : α) : Except.map f (.ok x : M α) = .ok (f x) := rfl
-theorem map_error {α β} (f : α → β) (e : Panic) : Except.map f (.error e : M α) = .error e := rfl
-
 theorem It.nextI_erase (f : Font) (info : List Info) : ∀ (fuel : Nat) (it : It),
     (It.nextI it f info fuel).map (·.1) = It.next it f info fuel := by
   intro fuel
